@@ -35,6 +35,31 @@ def random_cases(ctx, n):
     return cases
 
 
+def resized_cases(ctx, nsel):
+    """Datasets that are resized after they were written: grown (chunks of the new space do not exist in the index), shrunk
+    below the chunk extent in a non-first dimension, grown in one and shrunk in another dimension.  The full read is then
+    the old values where both extents overlap and zero in added space; partial reads must agree with it."""
+    rng = random.Random(ctx.seed * 32452843 + 9)
+    shapes = [([6], [4], [10]), ([6], [4], [3]), ([5], [5], [9]), ([4, 6], [2, 4], [6, 9]), ([4, 6], [2, 4], [4, 3]), ([4, 6], [2, 4], [7, 2]),
+              ([3, 5], [3, 5], [5, 5]), ([4, 4], [3, 3], [2, 6]), ([2, 3, 4], [1, 2, 3], [3, 3, 2]), ([3, 4, 2], [2, 2, 2], [3, 2, 4])]
+    cases = []
+    for wdims, chunk, dims in shapes:
+        sels = [[{"start": 0, "count": d, "stride": 1, "block": 1} for d in dims]]
+        for _ in range(nsel):
+            s = []
+            for d in dims:
+                stride = rng.choice([1, 1, 2, 3])
+                block = rng.choice([1, 1, min(2, stride)])
+                maxcount = max(1, (d - block) // stride + 1)
+                count = rng.randint(1, maxcount)
+                span = (count - 1) * stride + block
+                s.append({"start": rng.randint(0, max(0, d - span)), "count": count, "stride": stride, "block": block})
+            sels.append(s)
+        for dt in ("i32", "f64"):
+            cases.append({"cfg": {"dims": dims, "wdims": wdims, "chunk": chunk, "dt": dt}, "sels": sels})
+    return cases
+
+
 def run(ctx):
     thorough = ctx.tier == "thorough"
     # selection arithmetic for ALL extents and parameters (Apalache): indices in bounds, strictly increasing for proper
@@ -46,7 +71,7 @@ def run(ctx):
     lines, gr = ctx.generate("C09Shapes.tla", "C09_thorough.cfg" if thorough else "C09_quick.cfg")
     cases = [json.loads(x) for x in lines]
     ngen = len(cases)
-    cases += random_cases(ctx, 300 if thorough else 40)
+    cases += random_cases(ctx, 300 if thorough else 40) + resized_cases(ctx, 120 if thorough else 40)
     path = ctx.write_cases(cases)
     trace, out = ctx.drive("c09", path, env={"H5V_C09_CAP": "20000" if thorough else "2500"})
     H.log(out.strip())
@@ -97,7 +122,8 @@ def run(ctx):
         "rule": "cases = for each dataset shape/layout of the bounded set (rank 1-3 quick, 1-4 thorough; contiguous and several chunk shapes "
                 "incl. partial edge chunks) the product of ALL per-dimension selections [start 0..n, count 0..n, stride, block] generated by TLC "
                 "(complete when <= cap, else a seeded sample with 3/4 valid selections), ReadSlice for plain selections and ReadHyperslab "
-                "otherwise, plus a full chunk-iterator pass, plus seeded random larger shapes; non-trivial = valid selections whose result was "
+                "otherwise, plus a full chunk-iterator pass, plus seeded random larger shapes, plus datasets resized after the write (grown: chunks "
+                "missing from the index; shrunk below the chunk extent) whose full read is the old values and zero in added space; non-trivial = valid selections whose result was "
                 "compared element by element with Expected(dims, sel); invalid ones must be refused",
         "samples": [cases[0]["cfg"], cases[ngen // 2]["cfg"], {"cfg": cases[ngen]["cfg"], "sels": cases[ngen]["sels"][:2]}],
         "states": gr.distinct, "transitions": gr.generated,
